@@ -627,10 +627,10 @@ Section Deps.
   (* fields that the force bookkeeping never touches *)
   Definition same_deps (v v' : var) : Prop :=
     v_active v' = v_active v /\ v_rc v' = v_rc v /\ v_awake v' = v_awake v /\
-    v_apply v' = v_apply v /\ v_arc v' = v_arc v.
+    v_apply v' = v_apply v /\ v_arc v' = v_arc v /\ v_tsf v' = v_tsf v.
 
   Lemma VI_same_deps r a v v' : same_deps v v' -> VI r a v -> VI r a v'.
-  Proof. intros (E1 & E2 & E3 & E4 & E5). unfold VI. rewrite E1, E2, E3, E4, E5. tauto. Qed.
+  Proof. intros (E1 & E2 & E3 & E4 & E5 & _). unfold VI. rewrite E1, E2, E3, E4, E5. tauto. Qed.
 
   Lemma same_deps_vcalc v cs : same_deps v (set_vcalc O v cs).
   Proof. destruct v; unfold same_deps; cbn; tauto. Qed.
@@ -645,6 +645,62 @@ Section Deps.
     pose proof (VI_wake_var it r a v Hr H) as H1.
     destruct (v_active (fst (wake_var fixed it v))); [|exact H1].
     eapply VI_same_deps; [apply same_deps_vcalc | exact H1].
+  Qed.
+
+  (* the variable's own schedule: after calc_colvars a variable with factor n > 1 holds its "awake" reference
+     exactly at the multiples of n, and is active exactly when its reference count is positive *)
+  Lemma enable_awake_facts r a v : 0 <= r -> VI r a v ->
+    let w := var_enable_awake v in
+    v_awake w = true /\ v_active w = true /\ 0 < v_rc w /\ v_tsf w = v_tsf v.
+  Proof.
+    destruct v as [tsf act rc aw ap arc x cs fb fba f].
+    unfold VI, var_enable_awake, var_ref_active, set_vawake, set_vact. cbn.
+    intros Hr (H1 & H2 & H3 & H4).
+    destruct aw; cbn in *.
+    - assert (X : 0 < rc) by lia. rewrite (H3 X). repeat split; auto.
+    - destruct act; cbn; repeat split; auto; lia.
+  Qed.
+
+  Lemma disable_awake_facts r a v : 0 <= r -> VI r a v -> (v_awake v = true \/ v_active v = false) ->
+    let w := fst (var_disable_awake v) in
+    v_awake w = false /\ v_active w = (0 <? v_rc w) /\ v_tsf w = v_tsf v.
+  Proof.
+    destruct v as [tsf act rc aw ap arc x cs fb fba f].
+    unfold VI, var_disable_awake, var_decr_active, set_vawake, set_vact. cbn.
+    intros Hr (H1 & H2 & H3 & H4) Hc.
+    destruct aw; cbn in *.
+    - assert (X : 0 < rc) by lia. pose proof (H3 X) as Ha. subst act.
+      destruct (Z.leb_spec rc 0) as [L|L]; [lia|].
+      destruct (Z.eqb_spec (rc - 1) 0) as [E|E]; cbn; repeat split; auto.
+      symmetry. apply Z.ltb_lt. lia.
+    - destruct Hc as [Hc|Hc]; [discriminate|]. subst act. repeat split; auto.
+      assert (Hn : ~ 0 < rc) by (intro X; specialize (H3 X); discriminate).
+      symmetry. apply Z.ltb_ge. lia.
+  Qed.
+
+  Lemma calc_one_sched it r a v cs :
+    fixed = true -> 0 <= r -> VI r a v -> (1 <? v_tsf v) = true ->
+    let v' := calc_one it v cs in
+    v_tsf v' = v_tsf v /\ v_awake v' = on_schedule it (v_tsf v) /\ v_active v' = (0 <? v_rc v').
+  Proof.
+    intros Hf Hr H Ht. cbn zeta.
+    assert (G : let w := fst (wake_var fixed it v) in
+                v_tsf w = v_tsf v /\ v_awake w = on_schedule it (v_tsf v) /\ v_active w = (0 <? v_rc w)).
+    { cbn zeta. unfold wake_var. rewrite Ht, Hf. destruct (on_schedule it (v_tsf v)); cbn [fst andb].
+      - destruct (enable_awake_facts r a v Hr H) as (A1 & A2 & A3 & A4).
+        split; [exact A4|]. split; [exact A1|]. rewrite A2. symmetry. apply Z.ltb_lt. exact A3.
+      - destruct (v_active v && negb (v_awake v)) eqn:Ec.
+        + destruct (enable_awake_facts r a v Hr H) as (A1 & A2 & A3 & A4).
+          destruct (disable_awake_facts r a (var_enable_awake v) Hr (VI_enable_awake r a v Hr H) (or_introl A1)) as (D1 & D2 & D3).
+          split; [congruence|]. split; assumption.
+        + destruct (disable_awake_facts r a v Hr H) as (D1 & D2 & D3).
+          { apply andb_false_iff in Ec. destruct Ec as [Ec|Ec]; [right; exact Ec | left; apply negb_false_iff; exact Ec]. }
+          split; [exact D3|]. split; assumption. }
+    cbn zeta in G. destruct G as (G1 & G2 & G3). unfold calc_one. cbn zeta.
+    destruct (v_active (fst (wake_var fixed it v))) eqn:Ea.
+    - destruct (fst (wake_var fixed it v)) as [tsf act rc aw ap arc x cs0 fb fba f].
+      unfold set_vcalc. cbn [v_tsf v_awake v_active v_rc] in *. repeat split; congruence.
+    - rewrite Ea. repeat split; congruence.
   Qed.
 
   Lemma VInv_calc_vars it bs vs xs : VInv bs vs -> VInv bs (fst (calc_vars O fixed it vs xs)).
@@ -1190,10 +1246,10 @@ Section Real.
     FBrel D (set_vfb v2 0 0) v4 ->
     vterm k (update_force Rops v4) = D * gsum cs k /\ same_deps v2 (update_force Rops v4).
   Proof.
-    intros (V1 & V2 & V3 & V4) Hr Ha Har HD Hcs ((S1 & S2 & S3 & S4 & S5) & X & C & F).
+    intros (V1 & V2 & V3 & V4) Hr Ha Har HD Hcs ((S1 & S2 & S3 & S4 & S5 & S6) & X & C & F).
     destruct v2 as [tsf2 act2 rc2 aw2 ap2 arc2 x2 cs2 fb2 fba2 f2].
     destruct v4 as [tsf4 act4 rc4 aw4 ap4 arc4 x4 cs4 fb4 fba4 f4].
-    cbn in *. subst act4 rc4 aw4 ap4 arc4 x4 cs4.
+    cbn in *. subst act4 rc4 aw4 ap4 arc4 tsf4 x4 cs4.
     unfold vterm, update_force, var_applies, same_deps. cbn.
     destruct act2; cbn.
     - split; [|tauto]. destruct ap2; cbn.
@@ -1208,12 +1264,17 @@ Section Real.
   Qed.
 
   (* ---- one calc(): closed form ------------------------------------------------------------------------ *)
-  Lemma calc_closed it vs (bs : list bias) xs :
+  Definition var_sched (it : Z) (v : var) : Prop :=
+    fixed = true -> (1 <? v_tsf v)%Z = true ->
+    v_awake v = on_schedule it (v_tsf v) /\ v_active v = (0 <? v_rc v)%Z.
+
+  Lemma calc_closed_full it vs (bs : list bias) xs :
     VInv bs vs ->
     let r := calc Rops fixed efix it vs bs xs in
     let bs2 := map (bias_step it (length vs) xs) bs in
     snd (fst (fst r)) = bs2 /\ VInv bs2 (fst (fst (fst r))) /\ length (fst (fst (fst r))) = length vs /\
-    snd r = EN bs2 /\ forall k, coord_force Rops (fst (fst (fst r))) k = CF bs2 xs (length vs) k.
+    snd r = EN bs2 /\ (forall k, coord_force Rops (fst (fst (fst r))) k = CF bs2 xs (length vs) k) /\
+    Forall (var_sched it) (fst (fst (fst r))).
   Proof.
     intros H. cbn zeta. unfold calc.
     destruct (wake_biases_spec fixed it bs [] vs H) as (W1 & W2 & W3).
@@ -1239,7 +1300,7 @@ Section Real.
     (* per-variable description of the final list *)
     assert (P : forall i v5, nth_error (map (update_force Rops) vs4) i = Some v5 ->
               exists v2, nth_error vs2 i = Some v2 /\ same_deps v2 v5 /\
-                         forall k, vterm k v5 = VF bs2 i * gsum (nth i xs []) k).
+                         (forall k, vterm k v5 = VF bs2 i * gsum (nth i xs []) k) /\ var_sched it v2).
     { intros i v5 Hi. rewrite nth_error_map in Hi.
       destruct (nth_error vs4 i) as [v4|] eqn:E4; [|discriminate]. cbn in Hi. inversion Hi; subst v5. clear Hi.
       assert (Li : (i < length vs2)%nat).
@@ -1250,9 +1311,22 @@ Section Real.
       destruct (H4 i _ E3) as (v4' & E4' & Rel). rewrite E4 in E4'. inversion E4'; subst v4'. clear E4'.
       exists v2. split; [reflexivity|].
       destruct (refs_update_pure it (length vs) xs bs1 i) as [Q1 Q2]. fold bs2 in Q1, Q2.
-      assert (Hcs : v_active v2 = true -> v_cvcs v2 = nth i xs []).
-      { rewrite C1 in E2. destruct (nth_error vs1 i) as [v1|]; [|discriminate]. cbn in E2. inversion E2; subst v2.
-        intros A. apply (calc_one_active it v1 (nth i xs []) A). }
+      assert (Hcs : (v_active v2 = true -> v_cvcs v2 = nth i xs []) /\ var_sched it v2).
+      { rewrite C1 in E2. destruct (nth_error vs1 i) as [v1|] eqn:E1; [|discriminate]. cbn in E2. inversion E2; subst v2.
+        split; [intros A; apply (calc_one_active it v1 (nth i xs []) A)|].
+        intros Hf Ht.
+        pose proof (VI_calc_one Rops fixed it _ _ v1 (nth i xs []) (refs_nonneg bs1 i) (W2 i v1 E1)) as _.
+        assert (Ht1 : (1 <? v_tsf v1)%Z = true).
+        { unfold calc_one in Ht. cbn zeta in Ht.
+          assert (Tw : v_tsf (fst (wake_var fixed it v1)) = v_tsf v1).
+          { unfold wake_var, var_enable_awake, var_disable_awake, var_ref_active, var_decr_active, set_vawake, set_vact.
+            destruct v1 as [tsf act rc aw ap arc x cs0 fb fba f]. cbn.
+            repeat match goal with |- context [if ?c then _ else _] => destruct c; cbn end; reflexivity. }
+          destruct (v_active (fst (wake_var fixed it v1))); [|congruence].
+          destruct (fst (wake_var fixed it v1)); cbn in *; congruence. }
+        destruct (calc_one_sched Rops fixed it _ _ v1 (nth i xs []) Hf (refs_nonneg bs1 i) (W2 i v1 E1) Ht1) as (S1 & S2 & S3).
+        rewrite S1. split; assumption. }
+      destruct Hcs as [Hcs Hsch].
       assert (G : forall k, vterm k (update_force Rops v4) = VF bs2 i * gsum (nth i xs []) k /\
                             same_deps v2 (update_force Rops v4)).
       { intros k. apply (vterm_final k v2 v4 (nth i xs []) (VF bs2 i) (refs bs1 i) (arefs bs1 i)).
@@ -1263,18 +1337,29 @@ Section Real.
         - intros Z0. apply VF_zero. rewrite Q2. exact Z0.
         - exact Hcs.
         - exact Rel. }
-      split; [apply (G 0%nat) | intros k; apply (G k)]. }
-    split; [reflexivity|]. split; [|split; [|split]].
+      split; [apply (G 0%nat)|]. split; [intros k; apply (G k) | exact Hsch]. }
+    split; [reflexivity|]. split; [|split; [|split; [|split]]].
     - (* VInv *)
-      intros i v5 Hi. destruct (P i v5 Hi) as (v2 & E2 & SD & _).
+      intros i v5 Hi. destruct (P i v5 Hi) as (v2 & E2 & SD & _ & _).
       destruct (refs_update_pure it (length vs) xs bs1 i) as [Q1 Q2]. fold bs2 in Q1, Q2.
       unfold VInv in *. rewrite Q1, Q2. eapply VI_same_deps; [exact SD | apply C3; exact E2].
     - rewrite map_length. lia.
     - apply total_energy_closed.
     - intros k. rewrite coord_force_closed. unfold CF.
       replace (length vs) with (length (map (update_force Rops) vs4)) by (rewrite map_length; lia).
-      apply rsum_index. intros i v5 Hi. destruct (P i v5 Hi) as (_ & _ & _ & G). cbn [Nat.add]. apply G.
+      apply rsum_index. intros i v5 Hi. destruct (P i v5 Hi) as (_ & _ & _ & G & _). cbn [Nat.add]. apply G.
+    - apply Forall_forall. intros v5 Hv. apply In_nth_error in Hv. destruct Hv as [i Hi].
+      destruct (P i v5 Hi) as (v2 & _ & (D1 & D2 & D3 & _ & _ & D6) & _ & Hs).
+      intros Hf Ht. unfold var_sched in Hs. rewrite D6 in Ht |- *. rewrite D1, D2, D3. apply Hs; assumption.
   Qed.
+
+  Lemma calc_closed it vs (bs : list bias) xs :
+    VInv bs vs ->
+    let r := calc Rops fixed efix it vs bs xs in
+    let bs2 := map (bias_step it (length vs) xs) bs in
+    snd (fst (fst r)) = bs2 /\ VInv bs2 (fst (fst (fst r))) /\ length (fst (fst (fst r))) = length vs /\
+    snd r = EN bs2 /\ forall k, coord_force Rops (fst (fst (fst r))) k = CF bs2 xs (length vs) k.
+  Proof. intros H. destruct (calc_closed_full it vs bs xs H) as (A & B & C & D & E & _). auto. Qed.
 
   (* ---- whole runs ------------------------------------------------------------------------------------ *)
   (* the history of the biases is a function of the biases, the step numbers and the imposed values *)
@@ -1365,6 +1450,51 @@ Section Real.
     unfold run_cfg. pose proof (run_closed evs _ (init_StInv it0 tsfs cfgs)) as H.
     rewrite init_nv in H. exact H.
   Qed.
+
+  (* ---- the schedule of a variable with its own factor -------------------------------------------------- *)
+  Definition var_sched_out (o : @out R BS) : Prop :=
+    forall i v, nth_error (o_vars o) i = Some v -> (1 <? v_tsf v)%Z = true ->
+      v_active v = on_schedule (o_it o) (v_tsf v) || (0 <? refs (o_biases o) i)%Z.
+
+  Lemma do_calc_sched (m : @mstate R BS) it xs :
+    fixed = true -> StInv m -> Forall var_sched_out (snd (do_calc Rops fixed efix m it xs)).
+  Proof.
+    intros Hf H. unfold do_calc.
+    pose proof (calc_closed_full it (m_vars m) (m_biases m) xs H) as C. cbn zeta in C.
+    destruct (calc Rops fixed efix it (m_vars m) (m_biases m) xs) as [[[vs bs] e] en].
+    cbn [fst snd] in *. destruct C as (C1 & C2 & C3 & C4 & C5 & C6).
+    constructor; [|constructor]. unfold var_sched_out. cbn [o_vars o_it o_biases].
+    intros i v Hi Ht.
+    assert (Hin : In v vs) by (eapply nth_error_In; exact Hi).
+    rewrite Forall_forall in C6. destruct (C6 v Hin Hf Ht) as [S1 S2].
+    rewrite C1. destruct (C2 i v Hi) as (V1 & _). rewrite S2, V1, S1.
+    pose proof (refs_nonneg (map (bias_step it (length (m_vars m)) xs) (m_biases m)) i) as Hn.
+    destruct (on_schedule it (v_tsf v)); cbn [b2z orb].
+    - apply Z.ltb_lt. lia.
+    - f_equal. lia.
+  Qed.
+
+  Lemma run_var_sched evs : forall (m : @mstate R BS),
+    fixed = true -> StInv m -> Forall var_sched_out (run Rops fixed efix m evs).
+  Proof.
+    induction evs as [|ev r IH]; intros m Hf H; [constructor|].
+    cbn [run]. destruct ev as [xs|xs|id on]; cbn [mstep].
+    - pose proof (do_calc_sched m (if m_first m then m_it m else (m_it m + 1)%Z) xs Hf H) as S.
+      pose proof (do_calc_closed m (if m_first m then m_it m else (m_it m + 1)%Z) xs H) as D. cbn zeta in D.
+      destruct (do_calc Rops fixed efix m (if m_first m then m_it m else (m_it m + 1)%Z) xs) as [m' o].
+      cbn [fst snd] in *. destruct D as (D1 & _). apply Forall_app. split; [exact S | apply IH; assumption].
+    - pose proof (do_calc_sched m (m_it m) xs Hf H) as S.
+      pose proof (do_calc_closed m (m_it m) xs H) as D. cbn zeta in D.
+      destruct (do_calc Rops fixed efix m (m_it m) xs) as [m' o].
+      cbn [fst snd] in *. destruct D as (D1 & _). apply Forall_app. split; [exact S | apply IH; assumption].
+    - destruct (set_active_spec id on (m_biases m) [] (m_vars m) H) as (S1 & S2 & S3).
+      destruct (set_active id on (m_biases m) (m_vars m)) as [[bs vs] e]. cbn [fst snd app] in *. subst bs.
+      cbn [app]. apply IH; [exact Hf | exact S2].
+  Qed.
+
+  Theorem variable_schedule it0 tsfs (cfgs : list (@bias_cfg R BS)) evs :
+    fixed = true -> Forall var_sched_out (run_cfg Rops fixed efix it0 tsfs cfgs evs).
+  Proof. intros Hf. unfold run_cfg. apply run_var_sched; [exact Hf | apply init_StInv]. Qed.
 
   (* ---- superposition ------------------------------------------------------------------------------------ *)
   Fixpoint select {A} (m : list bool) (l : list A) : list A :=
